@@ -47,6 +47,11 @@ CLAIMED = {
          "Consumer-group histories with 1-4 real group Readers against a coordinator state machine (join/sync barriers, heartbeat answers, generation-checked commits, session and rebalance timers), with late joins, Close, crashes (network killed + eviction), forced rebalances, coordinator moves, error codes and dropped connections on every group API, lost commit responses and appends; checked: no over-commit, nil sync commit => recorded, resume exactly at the committed offset (broker side and application side, no gaps), every record below an acknowledged commit was delivered before it, and after the script every record is delivered within a request budget.",
          "trusted: the fake coordinator's state machine and timers; reader<->member identity through unique client ids; duplicates (backward restarts) are permitted by the statement and only counted",
          "DESIGN.md section 5 C03"),
+ "C15": ("exploration",
+         "runtime monitor: timeline of Next / Start / function begin / cancellation / end recorded at the API boundary, checked against the fake coordinator's journal of JoinGroup / SyncGroup / Heartbeat / LeaveGroup (one logical clock, client write stamps from the wire tap)",
+         "A real kafka.ConsumerGroup runs application loops with functions that return at once, on cancellation, late after cancellation or after k ms, under coordinator error codes and dropped connections on every group API, forced rebalances, evictions, topic growth under the partition watcher, slow applications (Start on an already ended generation) and Close at random points; checked: Next never returns a generation while a function of the previous one runs, contexts are done before the member re-joins, heartbeat rate bounds, LeaveGroup before Close returns, ErrGroupClosed afterwards, join back-off lower bound.",
+         "trusted: fake coordinator; heartbeat rate and back-off are bounds that load can only lengthen; functions started after the following Next call are outside the claim",
+         "DESIGN.md section 5 C15"),
 }
 
 REASON_NOT_BUILT = "check not built yet in this round (design in DESIGN.md section 5); no claim is made"
